@@ -40,5 +40,9 @@ FinalFails == v_fails
   \cup (IF "hang" \in DOMAIN Case THEN {"C19.hang"} ELSE {})
   \cup (IF "ms" \in DOMAIN Case /\ Case.ms > 10000 THEN {"C19.slow"} ELSE {})
   \cup (IF "start" \in DOMAIN Case /\ "seeds" \in DOMAIN Case.start /\ Case.start.seeds > 5 THEN {"C19.seeds"} ELSE {})
+  \* the whole planning work of one encode_data() call: the same linear bound, whatever the number of planner invocations
+  \cup (IF "enc" \in DOMAIN Case /\ Case.enc.steps > 216 * (Case.n + 1) + 6 THEN {"C19.encodePlanningWork"} ELSE {})
+  \cup (IF "enc" \in DOMAIN Case /\ Case.enc.kind \notin {"Ok", "Err"} THEN {"C19.encodePanic"} ELSE {})
+  \cup (IF "enc" \in DOMAIN Case /\ Case.enc.ms > 10000 THEN {"C19.slow"} ELSE {})
 Verdict == Terminal => PrintT(ToJson([id |-> Case.id, fails |-> FinalFails, steps |-> v_steps, it |-> v_it]))
 =============================================================================
